@@ -266,7 +266,7 @@ func (p *c13prop) Run(c *core.Case, st *core.Stats) []core.Violation {
 
 func init() {
 	core.Register(&c13prop{base{id: "C13", level: "exploration",
-		rule: "reset clause: for all 7 parsers a used parser (random prior history H1 with several fills/Shrinks, small alphabets, long hash inputs and few hash bits so that stale table entries would verify against new data) and a new parser both execute Reset(x) (x nil or data on the copy/alias/huge-capacity paths, each parser with its own copy) followed by the same history H2; ALL observable results of H2 (n, err, blocks with nil == empty, Shrink values, ReadAt/ByteAt answers) are compared; twin clause: two new parsers, same calls; schedule clause: the whole check runs in a -race build, and 32 goroutines drive 32 distinct parser instances (long streams through 16-200 byte buffers, hundreds of Shrinks each) plus a decoder instance each, several rounds; every goroutine's results are compared with the sequential reference run and every race detector report is a violation; non-trivial iff H2 produced a block with a match; distinct = distinct concrete case",
+		rule:        "reset clause: for all 7 parsers a used parser (random prior history H1 with several fills/Shrinks, small alphabets, long hash inputs and few hash bits so that stale table entries would verify against new data) and a new parser both execute Reset(x) (x nil or data on the copy/alias/huge-capacity paths, each parser with its own copy) followed by the same history H2; ALL observable results of H2 (n, err, blocks with nil == empty, Shrink values, ReadAt/ByteAt answers) are compared; twin clause: two new parsers, same calls; schedule clause: the whole check runs in a -race build, and 32 goroutines drive 32 distinct parser instances (long streams through 16-200 byte buffers, hundreds of Shrinks each) plus a decoder instance each, several rounds; every goroutine's results are compared with the sequential reference run and every race detector report is a violation; non-trivial iff H2 produced a block with a match; distinct = distinct concrete case",
 		assumptions: []string{"buffers <= 1017 bytes so that the read sizes offered to a reader do not depend on the capacity history of the buffer", "the race detector only sees the schedules that occurred"},
 		mandatory:   []string{"pairs_compared", "pairs_with_matches_after_reset", "pairs_reset_with_data", "pairs_reset_nil", "concurrent_rounds"}}})
 }
